@@ -794,7 +794,11 @@ impl Client {
         let mut old_relay_cur_latency = Duration::default();
         {
             for (_, url, duration) in r.relay_latency.iter() {
-                if Some(url) == prev_relay.as_ref() {
+                // The previous relay may be reported by several probe kinds: compare
+                // against its lowest latency, not against whichever kind comes last.
+                if Some(url) == prev_relay.as_ref()
+                    && (old_relay_cur_latency.is_zero() || duration < old_relay_cur_latency)
+                {
                     old_relay_cur_latency = duration;
                 }
                 if let Some(best) = best_recent.get(url)
